@@ -72,6 +72,9 @@ func isAnswers(e error, refs []error) string {
 
 func runC04(c *core.Ctx) {
 	g := gen.New(c.R)
+	if c.Case%8 == 7 {
+		g.Str = gen.RegularBin // messages with a byte sequence that is not valid UTF-8
+	}
 	t := caseTree(c, g, 6)
 	// A wrapper that overrides its cause's message may override it with the
 	// EMPTY string (user wrapper whose Error() returns "", fmt.Errorf("%.0w")).
